@@ -113,7 +113,7 @@ claim('C20',
       'vectors up to length 30 with increasing dates are validated by TLC; exact rational arithmetic wherever exponents are whole, '
       'Python floats (trusted) only for fractional exponents.',
       COMMON_NOTE + ' Left open: VDB, PMT type=1, guess, life <= 0, nper <= 0, IRR/XIRR outside the uniqueness condition. '
-                    'Known finding F-C20-01.',
+                    'F-C20-01 is fixed (b5687c8).',
       '§7 C20')
 
 claim('C03',
@@ -239,6 +239,40 @@ claim('C08',
       COMMON_NOTE + ' Left open: visibility of a function registered after the evaluator was created, text with surrounding blanks, '
                     'currency/percent/date-looking text, "true"/"false" text in numeric positions.',
       '§7 C08')
+
+claim('C10',
+      'TLA+ spec XlLogic: an evaluator returning the SET of admissible outcomes (value, spy-call log) for IF / AND / OR / NOT with '
+      'explicit laziness; TLC enumerates conditions x branches x truth assignments x poisoned branches and AND/OR argument lists, and '
+      'checks that IF is deterministic and ignores a poisoned unselected branch; every case is evaluated with a SPY function in the '
+      'evaluator namespace and (value, log) must be an admissible outcome',
+      '18 conditions (logical and numeric constants, a blank cell, references under 4 truth assignments, comparisons, nested '
+      'AND/OR/NOT/IF, error values) x 6 branch expressions in both branches and in the two-argument form; branches poisoned by an '
+      'unknown function, a circular reference or 1/0 on either side; AND/OR of arity 1-3 over 13 argument kinds (incl. ranges, errors, '
+      'spies, an unknown function); NOT over all conditions. AND/OR may stop at any point where the result is decided: every such '
+      'stopping point is an admissible outcome, an error among the evaluated arguments being the result.',
+      COMMON_NOTE + ' Left open: text conditions, AND/OR with no non-blank element, text elements in AND/OR ranges.',
+      '§7 C10')
+claim('C12',
+      'XlWorkbook spec with a Persist step closing each history: the entry carries the stored values and the fresh value of every cell; '
+      'TLC enumerates all histories; each is replayed, persisted (.json/.gz/.gzip, also upper case; also before compilation), restored '
+      'and compared',
+      'Every history of up to 2 (thorough 3) Set / Evaluate steps followed by Persist on 4 shapes, one of which holds every value kind '
+      '(int, fraction, non-ASCII text, 1e300, 5e-324, boolean, date with a time, formulas yielding an error, a text and a logical, a '
+      'defined name, a range, two sheets). The restored model is compared with the original on cells (address, value, formula text), '
+      'formulae, defined names and range matrices, with the stored values of the specification state, and every cell is evaluated '
+      'in both models against the fresh value the specification computes; the file encoding must follow the extension.',
+      COMMON_NOTE + ' Left open: identity of token/uuid objects, the JSON text itself.',
+      '§7 C12')
+claim('C13',
+      'XlWorkbook spec with an Extract(focus) step: Closure (through references, ranges and names, with its laws checked by TLC) and '
+      'the fresh values of the focus before and after input changes; TLC enumerates every non-empty focus subset after every short '
+      'history; each is replayed through ModelCompiler.extract',
+      '6 acyclic shapes x every history of <= 1 (thorough 2) Set / Evaluate steps x EVERY non-empty subset of cells and names as '
+      'focus (12.5k cases quick): the extract must contain the closure, leave the original (constants, formulas, names, stored values) '
+      'unchanged, and evaluate every focused cell and name to the fresh value in both models - again after each input of the closure '
+      'is set to another value in both. Closure is shown extensive, idempotent and reference-closed by TLC.',
+      COMMON_NOTE + ' Left open: extra cells in the extract, its formulae/ranges bookkeeping beyond what evaluation needs.',
+      '§7 C13')
 
 ALL = ['C%02d' % i for i in range(1, 21)]
 
